@@ -232,7 +232,7 @@ fn rotate(
 
     #[cfg(log4rs_verif)]
     let mut verif_step = 0usize;
-    for i in (base..base + count - 1).rev() {
+    for i in (base..base + (count - 1)).rev() {
         let src = expand_env_vars(pattern.replace("{}", &i.to_string()));
         let dst = expand_env_vars(pattern.replace("{}", &(i + 1).to_string()));
         #[cfg(log4rs_verif)]
